@@ -140,6 +140,9 @@ func runSchedule(r *core.Run, in fpInit, schedule []string, origin string) *fpTr
 	}
 	finish(s, tr)
 	tr.Events = s.Trace
+	if s.Stalled {
+		core.Fail("a process did not reach its next gate within %v (origin %s): %v", s.Block, origin, tr.Schedule)
+	}
 	if !s.AllExited() {
 		core.Fail("scheduler could not finish a schedule (origin %s): %v", origin, tr.Schedule)
 	}
@@ -189,6 +192,9 @@ func replayBehaviour(r *core.Run, raw json.RawMessage) *fpTrace {
 	}
 	finish(s, tr)
 	tr.Events = s.Trace
+	if s.Stalled {
+		core.Fail("a process did not reach its next gate within %v while replaying a TLC behaviour", s.Block)
+	}
 	if !s.AllExited() {
 		core.Fail("scheduler could not finish a TLC behaviour")
 	}
